@@ -404,6 +404,10 @@ def viol_context(path, c, ln):
                 outst[rid] = outst.get(rid, 0) - 1
             elif k == "unsubscribe" and g[3] == "ok" and outst.get(rid, 0) > 0:
                 ctx.append("unsub-while-pending:" + rid)
+            if len(g) > 5 and g[3] == "okrid" and ("E~%s~" % g[4]) in g[5]:
+                # a call/auth/new resource response whose resource failed to load: the gateway keeps a direct
+                # subscription on the error placeholder (recorded finding KF-ERROR-SUBSCRIPTION)
+                ctx.append("error-placeholder:" + g[4])
         elif g[0] == "EV" and len(g) > 3 and g[1] == c and g[3] in ("delete", "unsub") and outst.get(g[2], 0) > 0:
             # ... or a delete / unsubscribe event reached the client while its request for that id was outstanding
             ctx.append("revoked-while-pending:" + g[2])
